@@ -70,7 +70,15 @@ def run(chk, orch):
                     # (its resolver verdict files are still around); the verdicts of THIS run must not depend on it
                     a["pre"] = {"spec": dict(spec, seed=spec["seed"] + 1), "opts": dict(o, keep_tmp=True, threads=1, high_memory=False)}
                     chk.faults["output_folder_with_multimapper_files_of_another_run"] += 1
-                orch.submit(0, "scenarios:pipeline", a, tag=("p", k, v))
+                fnp = "scenarios:pipeline"
+                if v == 1:
+                    # killed while reads are collected, after the first chromosome(s) are finished, then resumed: the resolver
+                    # must still see every alignment of a read, also those collected before the kill
+                    fnp = "scenarios:crash_resume"
+                    a["fault"] = {"kind": "kill", "stage": "collect", "label_rx": r"_collected$", "nth": k % 2, "phase": "after"}
+                    a["resume"] = {"high_memory": bool(cell.get("high_memory"))}
+                    chk.faults["kill_during_collection+resume"] += 1
+                orch.submit(0, fnp, a, tag=("p", k, v))
                 variants[(k, v)] = (s2, o, cell, a)
         res = {}
         for jid, tag, r in orch.results():
@@ -125,12 +133,12 @@ def run(chk, orch):
                 tp = []
             if tp:
                 chk.violation("ties", {"kind": re.sub(r"\br\d+\w*|\d+|G\d+(\.t\d+)?", "N", tp[0].split(": ", 1)[-1])[:80]}, " || ".join(tp[:3]),
-                              {"engine": "pipeline", "oracle": "self", "run": {"hashseed": 0, "fn": "scenarios:pipeline", "args": a}})
+                              {"engine": "pipeline", "oracle": "self", "run": {"hashseed": 0, "fn": "scenarios:crash_resume" if a.get("fault") else "scenarios:pipeline", "args": a}})
             per_read = [p for p in probs if "contributes" in p]
             if per_read:
                 kinds = set(p.split(": ", 1)[-1].split(":")[0] for p in per_read)
                 chk.violation("weight", {"kind": " | ".join(sorted(kinds))[:120]}, " || ".join(per_read[:3]),
-                              {"engine": "pipeline", "oracle": "self", "run": {"hashseed": 0, "fn": "scenarios:pipeline", "args": a}})
+                              {"engine": "pipeline", "oracle": "self", "run": {"hashseed": 0, "fn": "scenarios:crash_resume" if a.get("fault") else "scenarios:pipeline", "args": a}})
             if v == 0 or g["exit"] != 0:
                 continue
             bad = []
@@ -149,7 +157,7 @@ def run(chk, orch):
                                                               o.get("bam_order"), "high_memory" if cell.get("high_memory") else "default", bad[:6]),
                               {"engine": "pipeline", "oracle": "module:checks.c08", "kind": "P",
                                "golden": {"hashseed": 0, "fn": "scenarios:pipeline", "args": ga},
-                               "run": {"hashseed": 0, "fn": "scenarios:pipeline", "args": a}})
+                               "run": {"hashseed": 0, "fn": "scenarios:crash_resume" if a.get("fault") else "scenarios:pipeline", "args": a}})
         if quick or chk.time_left() < 90:
             break
 
